@@ -351,11 +351,93 @@ def routes_stream(ctx, res):
                 res.violate("C09:hand-written-not-hashed", "a plaintext written by hand into an included file did not replace the stored digest of the including file (or was not hashed)", case)
 
 
+def text_form_and_flags_stream(ctx, res):
+    """(a) the one-line text form of a digest value: `DigestValue.parse(str(v))` gives back the same salt and digest for every algorithm and
+    many salts (the documented inverse pair an application may store instead of the two-key map), and the parsed value verifies the
+    same secrets; (b) a challenge field in a section whose feature flag is OFF (the built-in flag, and an application-defined one)
+    hashes what is assigned to it like any other; (c) `update` / `|=` of a dict of challenge values FROM another typed dict of the same
+    configuration (plain strings) hashes every entry"""
+    import cincoconfig as cc
+    from cincoconfig.fields import DigestValue
+    from cincoconfig.core import FeatureFlagFieldMixin
+    rng = ctx.rng
+    for alg in ("md5", "sha1", "sha256", "sha512"):
+        hfun = getattr(hashlib, alg)
+        size = hfun().digest_size
+        # (a)
+        for i in range(40):
+            salt = bytes(rng.getrandbits(8) for _ in range(size)) if i else b"\xfb\xff\xfe" * (size // 3) + b"\xff" * (size % 3)
+            v = DigestValue(salt, hfun(salt + b"pw").digest(), hfun)
+            res.case(("text-form", alg, i) if i < 3 else None, kind="text-form:" + alg)
+            try:
+                back = DigestValue.parse(str(v), hfun)
+                okk = back.salt == v.salt and back.digest == v.digest
+                if okk:
+                    back.challenge("pw")
+            except Exception as e:  # noqa
+                okk = False
+            if not okk:
+                res.violate("C09:text-form-not-inverse", "DigestValue.parse(str(value)) does not give back the same salt and digest", {"stream": "text-form", "alg": alg, "text": str(v)[:60]})
+                break
+        # (b)
+        class ModeFlagField(cc.StringField, FeatureFlagFieldMixin):
+            def is_feature_enabled(self, cfg):
+                return self.__getval__(cfg) == "on"
+        for flag_kind, mk, off in (("built-in", lambda: cc.FeatureFlagField(default=False), False), ("application-defined", lambda: ModeFlagField(default="off"), "off")):
+            for route in ("attr", "dotted", "bytes"):
+                s = cc.Schema()
+                s.ldap.switch = mk()
+                s.ldap.bind_password = cc.ChallengeField(alg)
+                cfg = s()
+                secret = b"bind-\xff-bytes" if route == "bytes" else "bind-s\u00e9cret-\u03a9"
+                case = {"stream": "flag-off", "alg": alg, "flag": flag_kind, "route": route}
+                res.case(stable(case), kind="flag-off")
+                try:
+                    if route == "dotted":
+                        cfg["ldap.bind_password"] = secret
+                    else:
+                        cfg.ldap.bind_password = secret
+                    held = cfg.ldap.bind_password
+                    pb = secret if isinstance(secret, bytes) else secret.encode()
+                    okk = isinstance(held, DigestValue) and held.digest == hfun(held.salt + pb).digest()
+                    doc = cfg.dumps(format="json")
+                    leaked = isinstance(secret, str) and secret.encode() in doc
+                except Exception as e:  # noqa
+                    okk, leaked = False, "raised %s" % type(e).__name__
+                if not okk or leaked:
+                    res.violate("C09:route:plaintext-held", "a secret assigned to a challenge field of a section whose feature flag is off is not held as a salted hash", dict(case, leaked=leaked))
+        # (c)
+        s = cc.Schema()
+        s.auth.users = cc.DictField(cc.StringField(), cc.ChallengeField(alg), default=dict)
+        s.auth.bootstrap = cc.DictField(cc.StringField(), cc.StringField(), default=dict)
+        for how in ("update(proxy)", "|= proxy", "update(proxy.copy())", "update(proxy, extra=...)"):
+            cfg = s()
+            cfg.auth.bootstrap = {"alice": "wonderland-\u03a9", "bob": ""}
+            case = {"stream": "from-other-proxy", "alg": alg, "how": how}
+            res.case(stable(case), kind="from-other-proxy")
+            try:
+                if how == "update(proxy)":
+                    cfg.auth.users.update(cfg.auth.bootstrap)
+                elif how == "|= proxy":
+                    cfg.auth.users |= cfg.auth.bootstrap
+                elif how == "update(proxy.copy())":
+                    cfg.auth.users.update(cfg.auth.bootstrap.copy())
+                else:
+                    cfg.auth.users.update(cfg.auth.bootstrap, carol="third")
+                held = dict(cfg.auth.users)
+                okk = all(isinstance(x, DigestValue) for x in held.values()) and held["alice"].digest == hfun(held["alice"].salt + "wonderland-\u03a9".encode()).digest()
+                cfg.dumps(format="json")
+            except Exception as e:  # noqa
+                okk = False
+            if not okk:
+                res.violate("C09:route:plaintext-held", "entries taken over from another typed dict of the same configuration are not hashed", case)
+
 def run(ctx):
     from cincoconfig import Schema, ChallengeField
     from cincoconfig.fields import DigestValue
     import os as _os
     res = Result()
+    guard(res, "C09", text_form_and_flags_stream, ctx, res)
     guard(res, "C09", nested_and_reset_stream, ctx, res)
     guard(res, "C09", routes_stream, ctx, res)
     rng = ctx.rng
